@@ -513,6 +513,9 @@ def check_generic(prop, tier, cfgs, n_quick, n_thorough, sigfun, stages, level="
             cov["exclusion_classes"] = excl_classes
         if extra_cov:
             cov.update(extra_cov(progs))
+        if prop == "C10":
+            from . import raw_cases
+            cov.update(raw_cases.run(v, prop, root))
         if len(incon) > len(progs) * 0.1:
             v.inconclusive = f"{len(incon)} of {len(progs)} programs inconclusive: {incon[0][1][:300]}"
         elif accepted < evaluated * 0.5:
@@ -589,7 +592,7 @@ def profiles(q):
         "ext": gen.cfg_with(files=(1, 3), quarantine=q, p_ext=0.75, complex_per_file=(3, 6), simple_per_file=(0, 2),
                             elements_per_file=(0, 2), p_cross_file=0.6, own_ns_default=0.3),
         "ext-keywords": gen.cfg_with(files=(2, 3), quarantine=q, p_ext=0.75, complex_per_file=(3, 5), keyword_rate=0.25),
-        "names": gen.cfg_with(files=(2, 4), quarantine=q, name_pool=pool, max_words=2, keyword_rate=0.0, reuse_names=True,
+        "names": gen.cfg_with(files=(3, 4), quarantine=q, name_pool=pool, max_words=2, keyword_rate=0.0, reuse_names=True, p_component_rebinds_prefix=0.6,
                               p_ref=0.45, p_ext=0.45, p_cross_file=0.7, elements_per_file=(1, 3), complex_per_file=(2, 4)),
         "names-wsdl": gen.cfg_with(files=(2, 3), wsdl=True, p_inline_schemas=0.3, quarantine=q, name_pool=pool + ["part", "body"], max_words=2, keyword_rate=0.0,
                                    reuse_names=True, p_ref=0.4, p_cross_file=0.7, attr_named_simple=False, avoid_nested_same_name=True, ops=(1, 3), p_part_element_cross=0.6,
